@@ -420,7 +420,7 @@ def write_cases(ck: Check, tag: str, k: int, exprs: List[str]) -> str:
 # shrinking
 # --------------------------------------------------------------------------------------
 
-def shrink(ck: Check, cps: List[int], mask: int, rounds: int = 14) -> Tuple[List[int], Dict[str, Any], int]:
+def shrink(ck: Check, cps: List[int], mask: int, rounds: int = 10) -> Tuple[List[int], Dict[str, Any], int]:
     best = list(cps)
     bobs: Dict[str, Any] = {}
     bcode = 0
